@@ -316,6 +316,47 @@ pub fn bezier(d: &mut Drv) {
     bez_mul_sym!(d, Mat4, 4, CubicBezier3, "CubicBezier3", 3, v3, [start, ctrl0, ctrl1, end]);
 }
 
+// ---------------------------------------------------------------------------
+// C12: the generic Lerp forms of the vector types on free symbols (end points and factor(s) symbolic): the unclamped
+// forms are polynomials - from + t (to - from) and from (1 - t) + to t - compared as such for every input.
+// The clamped forms branch on the order of the factor and stay with the exact-rational lane.
+pub fn lerps(d: &mut Drv) {
+    use vek::ops::Lerp;
+    macro_rules! one {
+        ($V:ident, $n:expr, $name:expr) => {{
+            sym::reset();
+            let t = Sym::fresh("t");
+            let tv = fresh($n);
+            let a = fresh($n);
+            let b = fresh($n);
+            let (va, vb, vt) = (vek::$V::<Sym>::from_slice(&a), vek::$V::<Sym>::from_slice(&b), vek::$V::<Sym>::from_slice(&tv));
+            let ts: Vec<Sym> = vec![t; $n];
+            let arg = |form: &str, variant: &str, t: &[Sym]| json!({"ty": $name, "form": form, "variant": variant, "a": evs(&a), "b": evs(&b), "t": evs(t), "lane": "sym"});
+            let o = |v: vek::$V<Sym>| evs(&v.into_iter().collect::<Vec<Sym>>());
+            d.call("lerp", || arg("inherent/scalar", "unclamped", &ts), || o(vek::$V::lerp_unclamped(va, vb, t)));
+            d.call("lerp", || arg("inherent/scalar", "unclamped_precise", &ts), || o(vek::$V::lerp_unclamped_precise(va, vb, t)));
+            d.call("lerp", || arg("inherent/vector", "unclamped", &tv), || o(vek::$V::lerp_unclamped(va, vb, vt)));
+            d.call("lerp", || arg("inherent/vector", "unclamped_precise", &tv), || o(vek::$V::lerp_unclamped_precise(va, vb, vt)));
+            d.call("lerp", || arg("trait", "unclamped", &ts), || o(<vek::$V<Sym> as Lerp<Sym>>::lerp_unclamped(va, vb, t)));
+            d.call("lerp", || arg("trait", "unclamped_precise", &ts), || o(<vek::$V<Sym> as Lerp<Sym>>::lerp_unclamped_precise(va, vb, t)));
+            d.call("lerp", || arg("trait/ref", "unclamped", &ts), || o(<&vek::$V<Sym> as Lerp<Sym>>::lerp_unclamped(&va, &vb, t)));
+            d.call("lerp", || arg("trait/ref", "unclamped_precise", &ts), || o(<&vek::$V<Sym> as Lerp<Sym>>::lerp_unclamped_precise(&va, &vb, t)));
+            d.call("lerp", || arg("trait/range", "unclamped", &ts), || o(<vek::$V<Sym> as Lerp<Sym>>::lerp_unclamped_inclusive_range(va..=vb, t)));
+            d.call("lerp", || arg("trait/range", "unclamped_precise", &ts), || o(<vek::$V<Sym> as Lerp<Sym>>::lerp_unclamped_precise_inclusive_range(va..=vb, t)));
+        }};
+    }
+    one!(Vec2, 2, "Vec2"); one!(Vec3, 3, "Vec3"); one!(Vec4, 4, "Vec4"); one!(Vec8, 8, "Vec8"); one!(Rgba, 4, "Rgba"); one!(Rgb, 3, "Rgb");
+    one!(Extent2, 2, "Extent2"); one!(Extent3, 3, "Extent3"); one!(Uv, 2, "Uv"); one!(Uvw, 3, "Uvw");
+    // quaternion, un-normalised forms
+    sym::reset();
+    let t = Sym::fresh("t");
+    let (a, b) = (fresh(4), fresh(4));
+    let (pa, pb) = (quat(&a), quat(&b));
+    let arg = |variant: &str| json!({"ty": "Quaternion", "form": "unnormalized", "variant": variant, "a": evs(&a), "b": evs(&b), "t": evs(&[t, t, t, t]), "lane": "sym"});
+    d.call("lerp", || arg("unclamped"), || eq_(&Quaternion::lerp_unclamped_unnormalized(pa, pb, t)));
+    d.call("lerp", || arg("unclamped_precise"), || eq_(&Quaternion::lerp_unclamped_precise_unnormalized(pa, pb, t)));
+}
+
 /// `vh drive sym --area rot|quat|affine [--chains FILE] --out F`: one pass over every operation form (the records
 /// do not depend on a seed: the operands are free symbols).
 pub fn drive_sym(args: &[String]) {
@@ -325,6 +366,7 @@ pub fn drive_sym(args: &[String]) {
         "rot" => rot(&mut d),
         "quat" => quats(&mut d),
         "bezier" => bezier(&mut d),
+        "lerp" => lerps(&mut d),
         "affine" => {
             let mut chains: Vec<(usize, Vec<String>)> = vec![];
             if let Some(p) = arg(args, "--chains") {
